@@ -16,6 +16,9 @@ Case (JSON-able):
   ext  : optional {point: [op, ...]} operations performed by ANOTHER THREAD while the dispatcher waits at a hand-over point:
          'S:n' before packet n is fetched, 'A0:n' after Caller.call copied its list, 'A:n:k' after the k-th packet_received
          callback, 'P0:n' after the list of matching registrations was built, 'P:n:k' after the k-th port callback
+  answers: optional {'pending': [[hdr, data, exp], ...], 'inloop': {'n:k': [op, ...]}}: the real Crazyflie._check_for_answers
+         listens with these requests pending; at the k-th line executed inside it for packet n another thread performs
+         ['sendexp', hdr, data, exp] (send_packet with an expected reply) / ['retry', i] (retry timer i fires)
   beh  : {str(cb): [[op, ...], ...]}             op = ['addh'|'remh', port, pmask, chan, cmask, cb, via]
                                                     | ['addall'|'remall', cb] | ['raise']
          via = 'hdr' (all five arguments given), 'def' (masks left to their 0xFF defaults),
@@ -152,6 +155,9 @@ class Run:
         self.fired = []          # hand-over points at which the other thread acted, in order
         self.ext_blocked = False
         self.ka = self.kp = 0
+        self.answers = case.get('answers')
+        self.vtimers = []
+        self.kline = 0
         self.ncalls = 0
         self.pk_index = {}
         self.pkts = []
@@ -204,6 +210,16 @@ class Run:
         k = op[0]
         if k == 'raise':
             raise CbRaise()
+        if k == 'sendexp':
+            # another thread sends a request with an expected reply: a new answer pattern is registered
+            from cflib.crtp.crtpstack import CRTPPacket
+            cf.send_packet(CRTPPacket(op[1], list(op[2])), expected_reply=tuple(op[3]))
+            return
+        if k == 'retry':
+            # another thread: the retry timer of a pending request fires
+            if 0 <= op[1] < len(self.vtimers) and not self.vtimers[op[1]].cancelled:
+                self.vtimers[op[1]].function()
+            return
         if k == 'addall':
             cf.packet_received.add_callback(self.cb_all(op[1]))
         elif k == 'remall':
@@ -263,18 +279,84 @@ class Run:
     def go(self):
         link = ScriptedLink(self.pkts, on_next=self._next, reads=self.case.get('reads'))
         self.cf.link = link
+        restore = None
+        if self.answers:
+            restore = self._arm_answer_check(link)
         try:
             self.cf.incoming.run()
         except _Stop:
             pass
         except BaseException as e:  # the dispatcher "thread" died
             self.died = type(e).__name__
+        finally:
+            if restore:
+                restore()
         self.cf.link = None
         self.consumed = link.i
         # the loop was ended by an exception of the link's receive_packet (not by a callback)
         self.read_fault_death = self.died is not None and link.last_raised
         self.reads_done = link.r
         return self
+
+    def _arm_answer_check(self, link):
+        """The library's own packet_received listener `Crazyflie._check_for_answers` with pending answer patterns, and
+        ANOTHER THREAD acting at line-level preemption points inside it: a trace function on the dispatcher thread hands
+        over at every new source line executed in _check_for_answers ('n:k' = k-th line event while packet n is checked).
+        A switch inside `list(d.keys())` or any other single C call is impossible, exactly as under the GIL."""
+        import sys
+        import cflib.crazyflie as cfmod
+        run = self
+        cf = self.cf
+
+        class VT:
+            def __init__(self, interval, function):
+                self.function, self.cancelled = function, False
+                run.vtimers.append(self)
+
+            def start(self): pass
+
+            def cancel(self):
+                self.cancelled = True
+        saved_timer = cfmod.Timer
+        cfmod.Timer = VT
+        link.needs_resending = True
+        from cflib.crtp.crtpstack import CRTPPacket
+        for hdr, data, exp in self.answers.get('pending', []):
+            cf.send_packet(CRTPPacket(hdr, list(data)), expected_reply=tuple(exp))
+        cf.packet_received.add_callback(cf._check_for_answers)
+        code = type(cf)._check_for_answers.__code__
+        inloop = self.answers.get('inloop') or {}
+
+        def local(frame, event, arg):
+            if event == 'line':
+                run.kline += 1
+                ops = inloop.get('%d:%d' % (run.cur, run.kline))
+                if ops:
+                    run.fired.append('L:%d:%d' % (run.cur, run.kline))
+                    if not _the_worker().perform(run, ops):
+                        run.ext_blocked = True
+            return local
+
+        def tracer(frame, event, arg):
+            if event == 'call' and frame.f_code is code:
+                run.kline = 0
+                return local
+            return None
+        sys.settrace(tracer)
+
+        def restore():
+            sys.settrace(None)
+            cfmod.Timer = saved_timer
+            try:
+                cf.packet_received.remove_callback(cf._check_for_answers)
+            except ValueError:
+                pass
+            cancel = getattr(cf, '_cancel_answer_timers', None)
+            if cancel:
+                cancel()
+            else:
+                cf._answer_patterns = {}
+        return restore
 
 
 def run_case(case, observer=None):
